@@ -12,7 +12,7 @@ spec -> code  schedules from TLC simulation are executed on real client and serv
               timeout); every operation runs in its own goroutine and is timed; afterwards both ends are shut down and the goroutines
               that still carry the scenario's pprof label are listed.  The same driver is run under the race detector
 code -> spec  TLC validates the timed records (Trace_Lifecycle): DeadlineBounds, LocalCloseReleases, RemoteCloseReleases,
-              FailureReleases, ClosePrompt, NothingLeftRunning, with the bounds of the cfg (1 s deadline slack, 3 s local, 8 s remote /
+              FailureReleases, ClosePrompt, NothingLeftRunning, with the bounds of the cfg (1.5 s deadline slack, 4 s local, 9 s remote /
               failure / close)
 """
 import json
@@ -105,7 +105,7 @@ def run(ctx):
     ctx.level = "model_checking"
     ctx.coverage["rule"] = ("schedules of 14 steps from TLC simulation plus 32 named schedules, each on TCP and UDP, one in five after 5.5 s of "
                             "idleness; distinct_nontrivial = scenarios containing a close, a failure or a deadline")
-    ctx.assumptions += ["real time on a loaded machine: bounds are 1 s (deadline), 3 s (local close), 8 s (remote close, failure, Close itself)",
+    ctx.assumptions += ["real time on a loaded machine: bounds are 1.5 s (deadline), 4 s (local close), 9 s (remote close, failure, Close itself)",
                         "a UDP black hole is not asserted to release operations in the quick tier (the idle timeout is 60 s)",
                         "leak = goroutine carrying the scenario's pprof label 8 s after both muxes were closed"]
     wd = vlib.scratch_dir("verif-c15-")
